@@ -104,6 +104,62 @@ func (c *ctx) closureFacts() *leanFile {
 			return true
 		})
 	})
+	// a method that writes its receiver's fields, called inside a literal on a variable the
+	// literal captured, is a write to shared state as well (e.g. a memo object created next to the closure)
+	mutators := map[string]bool{} // "Type.Method" whose body assigns receiver fields
+	for _, file := range c.files {
+		for _, d := range file.Decls {
+			fd, ok := d.(*ast.FuncDecl)
+			if !ok || fd.Recv == nil || fd.Body == nil || len(fd.Recv.List) != 1 || len(fd.Recv.List[0].Names) != 1 {
+				continue
+			}
+			if len(c.recvFieldWrites(fd.Body, fd.Recv.List[0].Names[0])) > 0 {
+				mutators[recvName(fd.Recv.List[0].Type)+"."+fd.Name.Name] = true
+			}
+		}
+	}
+	c.topLevel(func(name, file string, root ast.Node) {
+		if file != "func.go" && file != "build.go" {
+			return
+		}
+		walkStack(root, func(n ast.Node, stack []ast.Node) bool {
+			call, ok := n.(*ast.CallExpr)
+			if !ok {
+				return true
+			}
+			sel, ok := call.Fun.(*ast.SelectorExpr)
+			if !ok {
+				return true
+			}
+			id, ok := sel.X.(*ast.Ident)
+			if !ok {
+				return true
+			}
+			var lit *ast.FuncLit
+			for i := len(stack) - 1; i >= 0 && lit == nil; i-- {
+				lit, _ = stack[i].(*ast.FuncLit)
+			}
+			if lit == nil {
+				return true
+			}
+			o := c.obj(id)
+			v, isVar := o.(*types.Var)
+			if o == nil || !isVar || v.IsField() || (o.Pos() >= lit.Pos() && o.Pos() < lit.End()) {
+				return true
+			}
+			if v.Parent() == c.pkg.Scope() {
+				return true // package-level objects are covered by `globals` / `lockedWrites`
+			}
+			t := v.Type()
+			if p, ok := t.(*types.Pointer); ok {
+				t = p.Elem()
+			}
+			if nt, ok := t.(*types.Named); ok && nt.Obj().Pkg() == c.pkg && mutators[nt.Obj().Name()+"."+sel.Sel.Name] {
+				writes = append(writes, closureWrite{name, id.Name + "." + sel.Sel.Name + "()"})
+			}
+			return true
+		})
+	})
 	sort.Slice(writes, func(i, j int) bool {
 		if writes[i].Func != writes[j].Func {
 			return writes[i].Func < writes[j].Func
